@@ -392,9 +392,18 @@ func (c *Checked) checkLogRules(i int, op Op, res *OpResult, evs []Event) {
 	firstFailExec := -1
 	var failKind ExitKind
 	enteredHere := map[int]bool{}
+	inCB := map[int]bool{} // functions whose callback is running a nested request
 	for k := range evs {
 		e := &evs[k]
 		switch e.Kind {
+		case EvCallback:
+			if f := &c.H.Funcs[e.Fn]; f.Reenter && f.ReCB {
+				inCB[e.Fn] = true
+			}
+		case EvNested:
+			if e.Exec != -2 {
+				delete(inCB, e.Fn)
+			}
 		case EvEnter:
 			f := &c.H.Funcs[e.Fn]
 			if op.Kind != OpInvoke {
@@ -415,6 +424,9 @@ func (c *Checked) checkLogRules(i int, op Op, res *OpResult, evs []Event) {
 			// nested entry while already being built
 			if open := c.openAt(i, k); open[e.Fn] {
 				c.viol(i, "entered-while-open", fmt.Sprintf("f%d entered while already executing", e.Fn), "C02", "C05")
+			}
+			if inCB[e.Fn] {
+				c.viol(i, "entered-from-own-callback", fmt.Sprintf("f%d entered again by a request issued from its own callback, i.e. while its call is still in progress", e.Fn), "C02", "C05")
 			}
 			enteredHere[e.Fn] = true
 			c.entered[e.Fn]++
@@ -438,7 +450,9 @@ func (c *Checked) checkLogRules(i int, op Op, res *OpResult, evs []Event) {
 				}
 			} else {
 				c.lastFail[e.Fn] = true
-				if firstFail < 0 {
+				// a failure inside a nested request issued by user code stays
+				// there (the stubs ignore its outcome)
+				if firstFail < 0 && e.Nest == 0 {
 					firstFail, firstFailExec, failKind = e.Fn, e.Exec, e.Out
 				}
 			}
@@ -686,8 +700,18 @@ func (c *Checked) checkCallbacks(i int, op Op, res *OpResult, evs []Event) {
 					}
 				}
 			}
-			if cb.RuntimeNs != f.DurNs {
-				c.viol(i, "callback-runtime", fmt.Sprintf("f%d spent %dns inside its body, callback Runtime %dns", e.Fn, f.DurNs, cb.RuntimeNs), "C20")
+			// time inside the function: from its fn-enter to its fn-exit on the
+			// simulated clock (its own duration plus whatever nested requests
+			// its body issued; never its dependencies)
+			spent := f.DurNs
+			for b := k - 1; b >= 0; b-- {
+				if evs[b].Kind == EvEnter && evs[b].Fn == e.Fn && evs[b].Exec == e.Exec {
+					spent = e.SimT - evs[b].SimT
+					break
+				}
+			}
+			if cb.RuntimeNs != spent {
+				c.viol(i, "callback-runtime", fmt.Sprintf("f%d spent %dns inside its body, callback Runtime %dns", e.Fn, spent, cb.RuntimeNs), "C20")
 			}
 			if f.DurNs > 0 {
 				c.probe("callback_runtime_checked")
